@@ -66,6 +66,12 @@ fn data_as_table(data: &mut Buffer<BigEndian>) -> GDResult<(HashMap<String, Vec<
 
     for _ in 0 .. rows {
         for column in &column_heads {
+            // Every cell has at least its terminator: a table that announces more cells than
+            // there is data left is malformed (and must not be filled up with empty strings).
+            if data.remaining_length() == 0 {
+                return Err(PacketBad.context("Table has less cells than announced"));
+            }
+
             let value = data.read_string::<Utf8Decoder>(None)?;
             table
                 .get_mut(column)
